@@ -3,17 +3,18 @@ CONSTANTS
   p1 = p1
   p2 = p2
   p3 = p3
-  Peers <- ThreePeers
-  Ported <- ThreePeers
+  Peers <- TwoPeers
+  Ported <- TwoPeers
   TTL = 12
-  MaxTime = 7
+  MaxTime = 26
   Lossy = FALSE
   KeepLater = FALSE
+  Async <- OnlyP2
 INVARIANT TypeOK
+INVARIANT RemoveSaysGoodbye
 INVARIANT GoodbyeHonoured
 INVARIANT NeverPartial
 INVARIANT NothingForeign
 INVARIANT Prompt
 INVARIANT Stable
-CONSTRAINT Bounded
 CHECK_DEADLOCK FALSE
